@@ -1,6 +1,6 @@
 #!/bin/sh
 # run every quick check sequentially, print a summary line each
-cd /verif
+cd "$(dirname "$0")/.."
 for i in 01 02 03 04 05 06 07 08 09 10 11 12 13 14 15 16 17 18 19 20; do
   s=$(date +%s)
   timeout 3000 ./check C$i --tier ${1:-quick} > /tmp/run_C$i.out 2>&1
